@@ -4,6 +4,7 @@ import (
 	"encoding/json"
 	"fmt"
 	"os"
+	"os/exec"
 	"path/filepath"
 	"runtime"
 	"sort"
@@ -331,8 +332,57 @@ func runE1(prop, tier string) int {
 	fx := NewFixture(work+"/fx", dedupPkgs(plan.pkgs))
 	fmt.Fprintf(os.Stderr, "fixture: %d source packages, %d cases (%.1fs)\n", len(fx.Pkgs), len(plan.cases), time.Since(t0).Seconds())
 	validateFixture(fx)
-	results := runCases(fx, plan.cases, rep, func(r *Result) []*Violation { return plan.oracle(r) })
+	// oracle self-validation (C01): a fixed sample of verdicts is cross-checked with the go command
+	type sample struct {
+		r     *Result
+		clean bool
+	}
+	var samples []sample
+	var smu sync.Mutex
+	seenDir := map[string]int{}
+	results := runCases(fx, plan.cases, rep, func(r *Result) []*Violation {
+		vs := plan.oracle(r)
+		if prop == "C01" && r.ok() && r.Case.Cfg.Pkg == 0 && len(r.Case.Ifaces) == 1 {
+			smu.Lock()
+			if seenDir[r.Case.Dir] < 1 && (len(vs) > 0 || len(samples) < 60) && len(samples) < 90 {
+				seenDir[r.Case.Dir]++
+				samples = append(samples, sample{r, len(vs) == 0})
+			}
+			smu.Unlock()
+		}
+		return vs
+	})
 	_ = results
+	if prop == "C01" && len(samples) > 0 {
+		agree, disagree := 0, 0
+		parallelDo(len(samples), nproc(), func(i int) {
+			s := samples[i]
+			dst := filepath.Join(fx.Root, "s", fmt.Sprintf("xcheck_%d", i))
+			srcDir := filepath.Join(fx.Root, s.r.Case.Dir)
+			ents, _ := os.ReadDir(srcDir)
+			for _, e := range ents {
+				if b, err := os.ReadFile(filepath.Join(srcDir, e.Name())); err == nil && !e.IsDir() {
+					writeFile(filepath.Join(dst, e.Name()), string(b))
+				}
+			}
+			writeFile(filepath.Join(dst, "zz_moq.go"), string(s.r.Resp.Out))
+			cmd := exec.Command(goRoot+"/bin/go", "build", "./s/"+filepath.Base(dst))
+			cmd.Dir, cmd.Env = fx.Root, fx.Env
+			out, err := cmd.CombinedOutput()
+			smu.Lock()
+			defer smu.Unlock()
+			if (err == nil) == s.clean {
+				agree++
+			} else {
+				disagree++
+				fmt.Fprintf(os.Stderr, "oracle cross-check disagreement for %s: go/types clean=%v, go build err=%v\n%s\n", s.r.Case, s.clean, err, firstLines(string(out), 6))
+			}
+		})
+		rep.Set("oracle_crosschecks", map[string]int{"go build agrees with go/types": agree, "disagrees": disagree})
+		if disagree > 0 {
+			fatalf("the go/types oracle and the go command disagree on %d of %d sampled outputs", disagree, len(samples))
+		}
+	}
 	switch prop {
 	case "C11":
 		depth := 3
